@@ -307,10 +307,8 @@ class Exec:
         if extra is not None:
             self.solver.pop()
         if r == z3.unknown:
-            s2 = z3.Solver(); s2.set('timeout', self.fallback_ms)
-            s2.add(*self.pc)
-            if extra is not None: s2.add(extra)
-            r = s2.check(); self.nfallback += 1
+            from .smt import robust_check
+            r, s2 = robust_check(self.pc + ([extra] if extra is not None else []), self.fallback_ms / 1000.0); self.nfallback += 1
             if r == z3.unknown:
                 self.tq += time.time() - t0
                 raise Inconclusive('solver unknown: ' + s2.reason_unknown())
@@ -322,11 +320,9 @@ class Exec:
 
     def model(self, extra=None):
         """model of path condition (+extra) or None"""
-        s2 = z3.Solver(); s2.set('timeout', self.fallback_ms)
-        s2.add(*self.pc)
-        if extra is not None: s2.add(extra)
+        from .smt import robust_check
         self.nq += 1; t0 = time.time()
-        r = s2.check(); self.tq += time.time() - t0
+        r, s2 = robust_check(self.pc + ([extra] if extra is not None else []), self.fallback_ms / 1000.0); self.tq += time.time() - t0
         if r == z3.sat: return s2.model()
         if r == z3.unknown: raise Inconclusive('solver unknown (model): ' + s2.reason_unknown())
         return None
@@ -545,8 +541,6 @@ class Exec:
                 path[-1] = path[-1] + first
             else:
                 path.append(first)
-        elif not path and base_ty.kind not in ('struct', 'arr'):
-            path.append(0)
         for ix in idx[1:]:
             path.append(ix)
         return Ptr(base.region, path)
